@@ -1454,7 +1454,18 @@ class C11(Prop):
             cid = head.split(' ', 1)[0]
             for k, toks in enumerate(expand_inputs(spec.split())):
                 single.append(head.replace(cid, f'{cid[:-1]}i{k}p', 1) + ' I ' + inputs_lit(toks))
-        t2, f2 = vcheck.run_cases(self.name, single, jobs=jobs, timeout=10, per_case=True)
+        # two phases: the short inputs first; when a family already fails to return on those, the long tail (every case of which
+        # would cost a watchdog period on a tree that does not cut the recursion) adds nothing and is skipped
+        short = [l for l in single if int(l.partition(' I lit ')[2].split(' ')[0]) <= 2]
+        long_ = [l for l in single if int(l.partition(' I lit ')[2].split(' ')[0]) > 2]
+        t2, f2 = vcheck.run_cases(self.name, short, jobs=jobs, timeout=10, per_case=True)
+        if not any(f[0] in ('pred', 'missing') for f in f2):
+            t3, f3 = vcheck.run_cases(self.name, long_, jobs=jobs, timeout=10, per_case=True)
+            for k_ in ('pairs', 'corr_disagree', 'pred_fail', 'nontrivial', 'impl_s', 'model_s'):
+                t2[k_] += t3[k_]
+            for k_, v in t3['outcomes'].items():
+                t2['outcomes'][k_] = t2['outcomes'].get(k_, 0) + v
+            f2 = f2 + f3
         for k_ in ('pairs', 'corr_disagree', 'pred_fail', 'nontrivial', 'impl_s', 'model_s'):
             tot[k_] += t2[k_]
         for k_, v in t2['outcomes'].items():
@@ -1857,6 +1868,11 @@ def text_oracle(inst, pname, params, toks):
     if pname == 'iws':
         e = t_run(lambda c: c in (32, 9), toks, 0)
         return (0, e, e)
+    if pname in ('ws_b', 'iws_b', 'ws_x'):
+        lo, hi = (params[0], params[1]) if pname != 'ws_x' else (params[0], params[0])
+        cls = ws if pname != 'iws_b' else (lambda c: c in (32, 9))
+        e = min(t_run(cls, toks, 0), hi)          # greedy, but never more than `hi` characters
+        return (0, e, e) if e >= lo else None
     if pname == 'digits':
         e = t_run(lambda c: t_digit(r, c), toks, 0)
         return (0, e, e) if e > 0 else None
@@ -1959,6 +1975,7 @@ class C14(Prop):
         configs = []
         for r in (2, 8, 10, 16, 36):
             configs += [('int', [r]), ('digits', [r]), ('pad_int', [r])]
+        configs += [('ws_b', [2, 9]), ('ws_b', [0, 1]), ('ws_b', [1, 2]), ('iws_b', [2, 3]), ('iws_b', [0, 2]), ('ws_x', [3]), ('ws_x', [1])]
         configs += [('aident', []), ('uident', []), ('ws', []), ('iws', []), ('newline', []), ('pad_aident', []),
                     ('akw', [97]), ('akw', [97, 90]), ('akw', [95, 49]), ('akw', [97, 97, 97]), ('ukw', [233, 97]), ('ukw', [97])]
         lines = []
@@ -2044,8 +2061,8 @@ class C14(Prop):
                     b = a                 # no model of the engine
                 else:
                     want = text_oracle('char' if inst == 'gr' else inst, pname, params, toks)
-                    if inst == 'gr':
-                        b = a             # the grapheme instance has no model of its own: oracle only
+                    if inst == 'gr' or pname in ('ws_b', 'iws_b', 'ws_x'):
+                        b = a             # no model of its own (grapheme instance / bounded whitespace): oracle only
                 want_s = 'none' if want is None else 'ok %d %d %d' % want
                 obs[(cid[:-1], inst, k)] = (a, toks, pname, params)
                 if a != want_s:
@@ -3050,6 +3067,44 @@ class C16(Prop):
             for mode in ('parse', 'check'):
                 lines.append(f'NH h{n}{mode[0]} {ekh} {gap} {mode} 200 {self.table_str(tab)} A {gen.render(a)} '
                              f'B {gen.render(bsel)} M {gen.render(main)} I {inputs}'.replace('  ', ' '))
+        # nested inputs and Pratt expressions together (model: EEnv / runE; `call 0` = the expression, `call 1` = a group parsed as an
+        # expression, or the other way round): token trees of operator expressions, groups as atoms, expressions inside groups
+        X, Y, PLUS, STAR, BANG = 120, 121, 43, 42, 33
+        n_e = 300 if tier == 'quick' else 3000
+        for n in range(n_e):
+            tab = []
+            for i, g in enumerate(G):
+                cnt = rng.choice([1, 1, 3, 3, 2, 0])
+                pool = [X, Y, X, PLUS, STAR, BANG] + G[i + 1:] * 2
+                kids = [rng.choice(pool) for _ in range(cnt)]
+                if cnt == 3 and rng.random() < 0.6:
+                    kids = [rng.choice([X, Y] + G[i + 1:]), rng.choice([PLUS, STAR]), rng.choice([X, Y] + G[i + 1:])]
+                tab.append((g, kids))
+            gap = rng.choice([0, 1, 3])
+            nops = rng.randint(1, 4)
+            ops = []
+            for _ in range(nops):
+                kind = rng.choice(['infixl', 'infixr', 'prefix', 'postfix'])
+                sym = rng.choice([PLUS, STAR, BANG])
+                ops.append(f'{kind} {rng.randint(1, 3)} just 1 {sym}')
+            bsel = rng.choice([('select', G), ('oneof', G), ('select', G[:2])])
+            atom = ('or', ('oneof', [X, Y]), ('call', 1))
+            if rng.random() < 0.3:
+                atom = ('or', ('call', 1), ('validate', 'always', 5, 1, ('oneof', [X, Y])))
+            inner = rng.choice([('call', 0), ('call', 0), ('collect', 'vec', ('sep', ('call', 0), ('just', [BANG]), 0, None, False, True)),
+                                ('recvia', ('call', 0), ('to', ('vnat', 9), ('collect', 'unit', ('rep', ('any',), 0, None))))])
+            pe = f'P A {gen.render(atom)} O {nops} ' + ' '.join(ops)
+            ne_ = f'N A {gen.render(inner)} B {gen.render(bsel)}'
+            if n % 3 == 2:
+                exts, main = f'X 2 {ne_} {pe}', ('collect', 'vec', ('rep', ('or', ('call', 0), ('call', 1)), 0, None))   # call 0 = group, call 1 = expression
+                exts = exts.replace('call 1', 'call 9').replace('call 0', 'call 1').replace('call 9', 'call 0')
+            else:
+                exts, main = f'X 2 {pe} {ne_}', rng.choice([('call', 0), ('then', ('call', 0), ('ornot', ('call', 1)))])
+            inputs = inputs_all(maxlen, [X, PLUS, G[0], G[1]]) + ' ' + ' '.join(
+                inputs_lit([rng.choice([X, Y, PLUS, STAR, BANG] + G) for _ in range(rng.randint(1, 5))]) for _ in range(8))
+            eke = 'empty' if n % 5 == 4 else 'rich'
+            for mode in ('parse', 'check'):
+                lines.append(f'EX e{n}{mode[0]} {eke} {gap} {mode} 200 {self.table_str(tab)} {exts} M {gen.render(main)} I {inputs}'.replace('  ', ' '))
         return lines
 
     def corpus(self):
